@@ -27,6 +27,37 @@ def special_docs():
     ]
 
 
+def lazy_docs():
+    """objects with a user-type key (@k: value): the dependency converts parts of them only while the
+    document is written out (inside MarshalJSON), for every additionalProperties value and or-form,
+    placed in a response body, a request body and a TYPE"""
+    H = 'JSIGHT 0.3\n\nTYPE @k\n  "abc"\n\n'
+    out = []
+    aps = ["any", "string", "integer", "float", "decimal", "boolean", "object", "array", "null", "email", "uri", "uuid",
+           "date", "datetime", "enum", "mixed", "@k"]
+    ors = ['{or: [{type: "integer"}, {type: "string"}]}', '{or: [{type: "enum", enum: [1,2]}, {type: "string"}]}',
+           '{or: ["@k", {type: "integer"}]}', '{or: [{type: "mixed"}, {type: "string"}]}', '{type: "mixed", or: ["@k", "integer"]}',
+           '{enum: [1, 2]}', '{type: "decimal", precision: 2}', '{optional: true}']
+    def place(body, k):
+        ind = lambda n: "\n".join(" " * n + l for l in body.split("\n"))
+        if k == 0:
+            return H + "GET /a\n  200\n" + ind(4) + "\n"
+        if k == 1:
+            return H + "PUT /a/{id}\n  Request\n" + ind(4) + "\n  200 any\n"
+        return H + "TYPE @m\n" + ind(2) + "\n\nGET /a\n  200 @m\n"
+    for i, ap in enumerate(aps):
+        for k in range(3):
+            out.append(place('{ // {additionalProperties: "%s"}\n  @k: 1\n}' % ap, k))
+            if k == i % 3:
+                out.append(place('{ // {additionalProperties: "%s"}\n  @k: 1,\n  "p": {"q": 2}\n}' % ap, k))
+    for i, o in enumerate(ors):
+        for k in range(3):
+            out.append(place('{\n  @k: 1 // %s\n}' % o, k))
+            if k == i % 3:
+                out.append(place('{\n  "n": {\n    @k: 1 // %s\n  }\n}' % o, k))
+    return out
+
+
 def refs(v, out):
     if isinstance(v, dict):
         for k, x in v.items():
@@ -132,7 +163,7 @@ def matches_finding(v, f):
 def run(tier, out, model_ok, proof):
     rng = random.Random(seed())
     big = tier == "thorough"
-    docs = [d.encode() for d in special_docs()]
+    docs = [d.encode() for d in special_docs() + lazy_docs()]
     for i in range(1500 if big else 200):
         docs.append(render(typedgen.gen_typed(rng)))
     for i in range(800 if big else 120):
@@ -216,7 +247,7 @@ def run(tier, out, model_ok, proof):
     out.coverage.update({
         "evaluations": len(cases),
         "distinct_nontrivial": ok,
-        "rule": "projects = hand-picked (types with notations empty/any/regex, an invalid regex, or-rules the dependency cannot convert, repeated response codes of every notation, headers, path schemas, allOf/or bodies, query objects, JSON-RPC next to HTTP on one path, root and trailing-slash paths) + generated type graphs + structured documents + corpus files + mutated corpus files; for every ACCEPTED project ToOpenAPIJson, ToJson, ToOpenAPIJsonIndent are called: a panic reaching the caller is a violation; otherwise the result is an error value (counted per kind) or a document that must satisfy the shape predicate (openapi 3.0.3/info/paths; every HTTP interaction at paths[path][method]; every {parameter} declared in: path, required; response keys = the catalog's codes, each a status code or 'default'; every user type a component; every $ref resolves); the paths/parameters/operations/response-keys/components skeleton is compared with the extracted Coq model (Model/OpenApi.v); non-trivial = exported document passing the predicate",
+        "rule": "projects = hand-picked (types with notations empty/any/regex, an invalid regex, or-rules the dependency cannot convert, repeated response codes of every notation, headers, path schemas, allOf/or bodies, query objects, JSON-RPC next to HTTP on one path, root and trailing-slash paths; objects with a user-type key under every additionalProperties value and or-form in a response body, a request body and a TYPE, which the dependency converts while the document is written out) + generated type graphs + structured documents + corpus files + mutated corpus files; for every ACCEPTED project ToOpenAPIJson, ToJson, ToOpenAPIJsonIndent are called: a panic reaching the caller is a violation; otherwise the result is an error value (counted per kind) or a document that must satisfy the shape predicate (openapi 3.0.3/info/paths; every HTTP interaction at paths[path][method]; every {parameter} declared in: path, required; response keys = the catalog's codes, each a status code or 'default'; every user type a component; every $ref resolves); the paths/parameters/operations/response-keys/components skeleton is compared with the extracted Coq model (Model/OpenApi.v); non-trivial = exported document passing the predicate",
         "samples": [special_docs()[7][:200]],
         "accepted_projects": accepted, "error_values": errors, "error_value_kinds": errs,
         "traces_validated_against_impl": nmodel,
